@@ -337,9 +337,37 @@ def triage_lookup(ctx, s, key3):
     for (f2, k2, t2), inv2 in free:
         if f2 != fname and f2 in mod_funcs and alpha(t2, s.func) == mine:
             return inv2
+    # 4b. "extract method": the site sits in a private function that the triage table does not know and whose only
+    # callers (in the package) are functions that have an entry with the same alpha-shape and kind: the construct
+    # was moved out of them verbatim, so their invariant still speaks about it (the entry may still match a second
+    # occurrence that stayed behind)
+    g = s.func
+    known_funcs = {k[0] for k in TRIAGE}
+    gname = (g.cls.name + "." + g.name) if g.cls is not None else g.name
+    if g.name.startswith("_") and not g.name.startswith("__") and gname not in known_funcs:
+        callers = _callers_of(ctx, g)
+        if callers:
+            cnames = {(c.cls.name + "." + c.name) if c.cls is not None else c.name for c in callers}
+            invs = set()
+            for cn in cnames:
+                hit = [inv2 for (f2, k2, t2), inv2 in TRIAGE.items() if f2 == cn and k2 == kind and alpha(t2, s.func) == mine]
+                invs.add(hit[0] if hit else None)
+            if len(invs) == 1 and None not in invs:
+                return invs.pop()
     if kind == "unpack":
         return _unpack_of_element(ctx, s, [(k, v) for k, v in TRIAGE.items() if k not in exact], mod_funcs)
     return None
+
+
+def _callers_of(ctx, g):
+    key = ("callers", g.qual)
+    if key not in ctx.cache:
+        out = []
+        for f in ctx.db.funcs.values():
+            if f is not g and any(g in s_.callees for s_ in ctx.cg.sites(f)):
+                out.append(f)
+        ctx.cache[key] = out
+    return ctx.cache[key]
 
 
 def _unpack_of_element(ctx, s, free, mod_funcs):
@@ -726,6 +754,12 @@ def check_establishing(ctx, rep, E):
         guards = [nd for nd in own_nodes(kek.node) if isinstance(nd, ast.If) and "AROMATIC_VALENCES" in unparse(nd.test)
                   and "not in" in unparse(nd.test) and any(isinstance(x, ast.Return) for x in nd.body)]
         first_use = [nd for nd in own_nodes(kek.node) if isinstance(nd, ast.Attribute) and nd.attr == prune.name]
+        # ... or the first call of a helper that (transitively) prunes
+        for s_ in ctx.cg.sites(kek):
+            if any(g is prune or prune.qual in ctx.cg.region(g) for g in s_.callees) and hasattr(s_.node, "lineno"):
+                first_use.append(s_.node)
+        first_use.sort(key=lambda nd: (nd.lineno, nd.col_offset))
+        guards.sort(key=lambda nd: (nd.lineno, nd.col_offset))
         ok = bool(guards) and bool(first_use) and guards[0].lineno < first_use[0].lineno
         rep.ob("EST", ok, guards[0] if guards else kek.node, kek, construct="kekulize() element guard",
                how="elements without an aromatic valence entry make kekulize() return False before the table look-ups",
